@@ -116,16 +116,7 @@ func ruleMatchAcceptance(c *core.Ctx, rule string) {
 			return (bo.Op == token.EQL && !g.Val) || (bo.Op == token.NEQ && g.Val) || (bo.Op == token.GTR && g.Val)
 		})
 		short := shortParam != nil && hasGuard(rs.Ret, func(g core.Guard) bool {
-			bo, ok := g.Cond.(*ssa.BinOp)
-			if !ok || bo.Op != token.EQL || !g.Val {
-				return false
-			}
-			for _, pair := range [][2]ssa.Value{{bo.X, bo.Y}, {bo.Y, bo.X}} {
-				if _, nme, ok := core.FieldOf(pair[0]); ok && nme == "ShortSize" && pair[1] == ssa.Value(shortParam) {
-					return true
-				}
-			}
-			return false
+			return relHolds(g, token.EQL, isField("ShortSize"), isVal(shortParam))
 		})
 		c.Check(strong, rule, core.FnName(fuh), "match requires strong-hash equality", core.InstrPos(rs.Ret),
 			"the returned block's StrongHash equals uniqueHash(data)", "a block can be returned as a match without its strong hash having been compared with the hash of the window")
@@ -358,18 +349,7 @@ func runC01(c *core.Ctx) {
 				_, fn2, ok2 := core.FieldOf(pc.Call.Args[1])
 				c.Check(ok1 && fn1 == "SourceContainer" && ok2 && fn2 == "OutputFolder", "R01.5", core.FnName(nfb), "Prepare is called on the new build's container with the output folder", core.InstrPos(pr),
 					"params.SourceContainer.Prepare(params.OutputFolder)", "Prepare is not called on SourceContainer with OutputFolder")
-				skipNil := func(b, s *ssa.BasicBlock) bool {
-					ifi, ok := b.Instrs[len(b.Instrs)-1].(*ssa.If)
-					if !ok {
-						return false
-					}
-					bo, ok := ifi.Cond.(*ssa.BinOp)
-					if !ok || !core.IsNilConst(bo.Y) || !loadsStoredResult(bo.X, pc) {
-						return false
-					}
-					return (bo.Op == token.EQL && s == b.Succs[0]) || (bo.Op == token.NEQ && s == b.Succs[1])
-				}
-				p2 := core.FindPathSkipping(nfb, pr, isInstr(rs.Ret), nil, skipNil)
+				p2 := ungatedPath(nfb, pc, rs.Ret, nil)
 				c.Check(p2 == nil, "R01.5", core.FnName(nfb), "Prepare error is checked", core.InstrPos(pr), "success only on the nil outcome", "NewFreshBowl succeeds although Prepare failed").Path = c.P.PathStrings(p2)
 			}
 		}
